@@ -73,7 +73,11 @@ def state_case(draw, types=TYPES, n=(1, 4), nh=(1, 4), na=(1, 3), scales=SCALES,
         naux = draw(st.integers(*na))
         case["na"] = naux
         case["am"] = draw(net_params(nv, nhid, naux, scales))
-        case["ph"] = draw(net_params(nv, nhid, naux, scales, zero_d=True))
+        # the phase network's auxiliary bias has no effect on rho (it cancels in Psi Psi^dagger and the library never reads it);
+        # its documented value is 0, but a user / a loaded file may hold anything there: non-zero in 1 of 5 cases
+        case["ph"] = draw(net_params(nv, nhid, naux, scales, zero_d=draw(st.integers(0, 4)) != 0))
+        if any(x != 0 for x in case["ph"]["d"]):
+            case["ph_aux_nonzero"] = True
     else:
         case["am"] = draw(net_params(nv, nhid, None, scales))
         if t == "complex":
@@ -183,7 +187,7 @@ def all_biases_nonzero(case):
         if not net:
             continue
         for k in ("b", "c", "d"):
-            if k in net and not (key == "ph" and k == "d"):
+            if k in net and not (key == "ph" and k == "d"):   # the phase aux bias is irrelevant by design
                 if not any(abs(x) > 0 for x in net[k]):
                     return False
     return True
@@ -213,6 +217,8 @@ def arch_label(case):
         lab.append("user_unitaries")
     if case.get("large"):
         lab.append("large(beyond-box)")
+    if case.get("ph_aux_nonzero"):
+        lab.append("phase_aux_bias!=0")
     return lab
 
 
